@@ -27,6 +27,7 @@ Oracles, per accepted step and per independent component (tolerances next to the
   record  the recorded history has strictly increasing time stamps and contains every observed state in order
 """
 import math
+import os
 
 PROPERTY = 'C04'
 LEVEL = 'model_checking'
@@ -47,6 +48,10 @@ _REAL = {}
 
 
 class Horizon(Exception):
+    pass
+
+
+class ProbeFailed(Exception):
     pass
 
 
@@ -198,8 +203,11 @@ def _build(case, J, tau):
 def _probe_dt0(case):
     """Initial stable step of the configuration, from a throw-away model (setup + public getFluxes)."""
     p, _ = _build(case, 0.0, 1.0)        # at t = 0 the schedules do not depend on their time unit
-    p.setup()
-    _, dt0 = p.getFluxes()
+    try:
+        p.setup()
+        _, dt0 = p.getFluxes()
+    except Exception as e:               # every configuration of the products is in-domain and must set up
+        raise ProbeFailed('%s: %s' % (type(e).__name__, e))
     return float(dt0), float(p.dz)
 
 
@@ -256,7 +264,9 @@ def run_cfg(case):
 
 def _run_cfg(case):
     viol, seen = [], set()
-    mname = case['model'] if case.get('env', 'analytic') == 'analytic' else case['env']
+    # one signature per violated oracle and model type (+ a marker for real-backend runs and for the one API variant that
+    # is a call site of its own); the configuration that shows it is in the message and in the replay file
+    mname = case['model'] + ('' if case.get('env', 'analytic') == 'analytic' else '/real-backend')
     tag = _describe(case)
 
     def bad(kind, msg):
@@ -267,9 +277,13 @@ def _run_cfg(case):
             seen.add(sig)
             viol.append({'sig': sig, 'msg': '%s: %s' % (tag, msg)})
 
-    dt0, dz = _probe_dt0(case)
-    if not (dt0 > 0 and math.isfinite(dt0)):
-        raise RuntimeError('probe step %r' % dt0)
+    try:
+        dt0, dz = _probe_dt0(case)
+        if not (dt0 > 0 and math.isfinite(dt0)):
+            raise ProbeFailed('initial step size %r' % dt0)
+    except ProbeFailed as e:
+        bad('exception', 'setup() + getFluxes() of the initial state failed: %s' % e)
+        return {'viol': viol, 'states': 0, 'transitions': 0, 'outcome': 'exception', 'nontrivial': False}
     J = J_REL * case.get('jmult', 1.0) * dz / dt0
     m, cvals = _build(case, J, dt0)
     N, nel = m.N, len(m.allElements)
@@ -299,6 +313,7 @@ def _run_cfg(case):
     prescribed = {'f0': 0.0, '+J': J, '-J': -J}
     nclip, clip_amount, nskip = 0, 0.0, 0
     fixed0 = {}                                   # (element, side) -> value in the first state
+    unapplied = set()
     for k in range(n):
         s, (pt, px, pc) = steps[k], snaps[k]
         pre, out, dt = s['pre'], s['out'], s['dt']
@@ -325,6 +340,16 @@ def _run_cfg(case):
         # per component
         for e in range(nel - 1):
             lab_l, lab_r = bcs[e]
+            if k == 0:
+                # a composition boundary node starts at the requested value minus the one-time shift of setup
+                # (every composition above min is lowered by nElements*min, documented in setup)
+                for side, lab, idx in (('L', lab_l, 0), ('R', lab_r, -1)):
+                    if lab == 'c' and not abs(pre[e, idx] - cvals[(e, side)]) <= nel * xmin * (1 + 1e-6):
+                        bad('bc/requested-value', '%s: element %d side %s node starts at %.12g, requested composition %.12g'
+                            % (where, e, side, pre[e, idx], cvals[(e, side)]))
+                        unapplied.add(e)
+            if e in unapplied:
+                continue          # the boundary condition of this component never took effect; reported once above
             # tolerance: each of the N updates x_i + dx_i rounds by <= eps/2 |x_i| and dx_i itself carries a few eps
             # relative error (difference, division, products, RK4 stage sum): 8 N eps max|x| bounds the lot; the
             # flux term adds a few eps of its own magnitude.  Sums are exact (math.fsum).
@@ -343,7 +368,7 @@ def _run_cfg(case):
                     bad('step/sum-%s' % kindname,
                         '%s: element %d (bc %s|%s) mesh sum changed by %.6e, boundary fluxes give %.6e (diff %.3e, tol %.1e)'
                         % (where, e, lab_l, lab_r, d_obs, d_exp, d_obs - d_exp, tol))
-                if not ev[e].any():               # without a clip event the same holds for the recorded state
+                elif not ev[e].any():             # without a clip event the same holds for the recorded state
                     d_rec = _fsum(px[e]) - _fsum(pre[e])
                     if not abs(d_rec - d_exp) <= tol:
                         bad('step/sum-recorded', '%s: element %d recorded mesh sum changed by %.6e, expected %.6e'
@@ -356,11 +381,6 @@ def _run_cfg(case):
                     continue
                 if (e, side) not in fixed0:
                     fixed0[(e, side)] = pre[e, idx]
-                    req = cvals[(e, side)]
-                    # setup shifts every composition above min down by nElements*min once (documented)
-                    if not abs(pre[e, idx] - req) <= nel * xmin * (1 + 1e-6):
-                        bad('bc/requested-value', '%s: element %d side %s starts at %.12g, requested %.12g'
-                            % (where, e, side, pre[e, idx], req))
                 v0 = fixed0[(e, side)]
                 if pre[e, idx] != v0:
                     kindname = 'across-solve/bc-node' if (k > 0 and steps[k - 1]['call'] != s['call']) else 'step/bc-node'
@@ -388,6 +408,14 @@ def _run_cfg(case):
                     if not abs(d) <= tol:
                         bad('across-solve/sum', '%s: element %d mesh sum changed by %.6e between the end of solve call %d and '
                             'the start of call %d (N*nElements*min = %.3e)' % (where, e, d, qc, s['call'], N * nel * xmin))
+    if os.environ.get('VERIF_REPLAY_VERBOSE'):
+        print('trace of %s' % tag)
+        print('  prescribed J = %.6e, dz = %.6e, dt0 = %.6e' % (J, dz, dt0))
+        for k in range(n):
+            s = steps[k]
+            print('  call %d step %3d t=%.9g dt=%.6g  mesh sums before %s  un-clipped after %s  recorded %s' % (
+                s['call'], k, s['t'], s['dt'], ['%.15g' % _fsum(r) for r in s['pre']],
+                ['%.15g' % _fsum(r) for r in s['out']], ['%.15g' % _fsum(r) for r in snaps[k][1]]))
     # recorded history
     rt, rx = m._recordedTime, m._recordedX
     if rt is None or len(rt) != len(rx):
@@ -433,7 +461,10 @@ def run_instrument(case):
 
 def _run_instrument(case):
     viol = []
-    dt0, dz = _probe_dt0(case)
+    try:
+        dt0, dz = _probe_dt0(case)
+    except ProbeFailed:
+        return {'viol': [], 'states': 0, 'transitions': 0, 'outcome': 'probe-failed', 'nontrivial': False}   # reported by run_cfg
     J = J_REL * dz / dt0
     out = []
     for instrumented in (False, True):
@@ -565,9 +596,12 @@ def run(ctx):
                     for N in ([3, 5] if quick else [2, 3, 5, 12]):
                         for it in its:
                             for nc in ([2] if quick else [1, 3]):
-                                for jm in [1.0, 25.0]:
-                                    if model == 'homog' and els == 'tern' and jm > 1 and prof != 'bare-single':
-                                        continue
+                                # total inflow over a run = J_REL * jmult * nsteps * calls of a node's content.  A state
+                                # whose mole fractions sum to more than 1 is outside the models' domain (setup rejects it, the
+                                # homogenization provider - like a real backend - is undefined there), so the multiplier is
+                                # sized to stay below that: ternary 0.9 + 0.05, binary homogenization 0.6 + 0.2; the binary
+                                # single-phase model is driven into the upper clip (x = 1 - min) on purpose
+                                for jm in ([1.0] if els == 'tern' else ([1.0, 25.0] if model == 'single' else [1.0, 8.0])):
                                     c = {'model': model, 'els': els, 'N': N, 'profile': prof, 'bc': bc, 'it': it, 'calls': nc,
                                          'temp': 'iso', 'nsteps': nsteps, 'jmult': jm}
                                     if model == 'homog':
